@@ -16,10 +16,12 @@ SPEC = {
     'rule': ('operation sequences over add/reserve/release/merge on 3 resources and up to 4 live '
              'reservations: every sequence of length <= L over a 51-operation alphabet (incl. reservations that re-use one request dictionary object) from 3 base '
              'states (enumerated completely; L=3 quick, 4 thorough), then random sequences of length '
-             '6-40 with integer and dyadic amounts; a case is one sequence; non-trivial = it contains a '
+             '6-40 with integer and dyadic amounts; plus scripts on the real event queue in which reservations are made '
+             'from inside availability callbacks (also with the dictionary object the manager offers, after another '
+             'pool operation), judged for usage == outstanding reservations and success == fits; a case is one sequence; non-trivial = it contains a '
              'multi-entry request that must fail, or an operation that raised while a reservation was '
              'outstanding; distinct = by hash of the op list'),
-    'floors': {'quick': {'state_comparisons': 50000, 'raised_ops_checked': 1000},
+    'floors': {'quick': {'state_comparisons': 50000, 'raised_ops_checked': 1000, 'reservations_judged': 3000, 'pool_checks': 20000},
                'thorough': {'state_comparisons': 1000000, 'raised_ops_checked': 10000}},
     'exhaustive_key': 'exhaustive_sequences',
     'exhaustive_text': 'all sequences up to the length bound over the fixed alphabet (pruned only of '
@@ -399,10 +401,28 @@ def run(sh):
         r = run_sequence(sh, base, seq, True)
         if r is not None:
             sh.count('random_sequences')
+    waiter_leg(sh)
+
+
+def waiter_leg(sh):
+    """The same pool invariants where reservations are made from inside availability callbacks (also with the
+    very dictionary the manager offers), on the real event queue: C10's script engine, C09's oracles."""
+    import random as _r
+    from . import C10
+    n = 1500 if sh.tier == 'quick' else 60000
+    pol = ['prng', 'fifo', 'lifo', 'const']
+    for i in sh.share(n):
+        rng = _r.Random(core.stable_int(sh.seed, 'C09w', i))
+        C10.run_case(sh, C10.gen_case(rng, pol[i % 4]), owner='C09')
+        sh.count('callback_scripts')
 
 
 def replay(sh, v):
     case = v['case']
+    if case.get('engine') == 'waiters':
+        from . import C10
+        C10.run_case(sh, case, owner='C09')
+        return
     seq = [tuple(tuple(x) if isinstance(x, list) and x and not isinstance(x[0], list) else x for x in o)
            for o in case['ops']]
     # restore tuple shapes: ops are (kind, ...) with request lists of pairs
